@@ -78,3 +78,16 @@ Definition judge_san (r : san_record) : Z :=
   if k =? 0 then 0 else if known_c26_dtor r then 4 else if known_c26_false r then 5 else 2.
 
 Definition san_clean (l : list san_record) : bool := forallb (fun r => judge_san r =? 0) l.
+
+(* ------------------------------------------------------------------------------------------------ the property as stated *)
+(* C11 quantifies over programs using the whole library.  A semantics of such programs is NOT part of this development
+   (thread pool, task sets, parallel_for closures, pipelines, graphs, moodycamel's queue, ... have no memory model), so the
+   property text can only be written RELATIVE to one: what a sanitizer-exact semantics would report for a program used
+   within its documented contract.  Documentation only: no instance is constructed, nothing is proved about it. *)
+Record library_semantics := {
+  ls_program : Type;                                   (* API usage program + inputs + fault sequence (throwing user code, cancellation points) *)
+  ls_in_contract : ls_program -> Prop;                 (* "used within its documented contract" *)
+  ls_reports : ls_program -> list san_record -> Prop   (* the reports some execution (schedule) of the program produces *)
+}.
+Definition C11_statement_for (L : library_semantics) : Prop :=
+  forall p tr, ls_in_contract L p -> ls_reports L p tr -> san_clean tr = true.
